@@ -153,7 +153,7 @@ def _montecarlo_table(ck: Checker, prog: Program, f):
     GM, GS = R("generator_means"), R("generator_stddevs")
     NONE = sp.Symbol("None")
     gi = sp.Function("getitem")
-    pt = PathTable(prog, f.module, scope=f)
+    pt = PathTable(prog, f.module, scope=f, unroll=True)
     leaves = pt.leaves(f.node.body)
     rets = [l for l in leaves if l.exit == "return"]
     if not rets:
@@ -216,7 +216,8 @@ def _montecarlo_table(ck: Checker, prog: Program, f):
             assign = {G: names[g], S_: names[s_]}
             cands = []
             for l in rets:
-                vals = [_holds(x, assign) for x in literals(l) if x.has(G) or x.has(S_)]
+                from ..pathtable import specialise as _spec
+                vals = [_holds(_spec(x, assign), assign) for x in literals(l) if x.has(G) or x.has(S_)]
                 if any(v is None for v in vals):
                     raise AnalysisError(f"{q}: a condition on the distributions could not be evaluated ({[str(x) for x in literals(l)]})")
                 if all(vals):
@@ -228,7 +229,7 @@ def _montecarlo_table(ck: Checker, prog: Program, f):
             st = sp.Function("_statistics")(conv, W)
             mean, std = gi(st, sp.Integer(0)), gi(st, sp.Integer(1))
             want = sp.Tuple(sp.exp(mean), std, sp.exp(conv)) if s_ == "lognormal" else sp.Tuple(mean, std, conv)
-            bad = [l for l in cands if not (isinstance(l.value, sp.Tuple) and len(l.value) == 3 and all(equal(a, b) for a, b in zip(l.value, want)))]
+            bad = [l for l in cands if not (isinstance(_spec(l.value, assign), sp.Tuple) and len(l.value) == 3 and all(equal(a, b) for a, b in zip(_spec(l.value, assign), want)))]
             if not bad:
                 n_ok += 1
                 ck.ok("C14.R4", q, f"({g}, {s_}): statistics of {conv}; {'exp of mean and realisations' if s_ == 'lognormal' else 'no back-transform'}")
